@@ -194,7 +194,7 @@ def guarded_slice(ctx):
                 ctx.check(why is not None, fb.root or fb.key, what,
                           'decryption of untrusted bytes can panic: %s %s at line %d is not dominated by a length check%s' % (
                               ps.kind, ps.detail, ps.ln, ' (%s)' % ps.call.full[:70] if ps.call else ''), why or '', fb.where(ps.ln))
-    ctx.floor(idx, 4, 'ciphertext slices on the decrypting paths')
+    ctx.floor(idx, 2, 'ciphertext slices on the decrypting paths')
     # the Option returned by decapsulation is only mapped / transposed
     for r in roots:
         if r not in F.bodies:
@@ -319,3 +319,11 @@ def every_secret_tried(ctx):
     every right encapsulation — hybridized secrets included when the encapsulation is classic (C01.every-secret-tried)."""
     from . import c01
     c01.every_secret_tried(ctx)
+
+
+@rule('C12', 'every-revision-walked')
+def every_revision_walked(ctx):
+    """'an authorized key ... decrypts': decapsulation walks the revisions of the key with RevisionVec::revisions(), which must
+    yield every secret of every chain even when chains have different lengths (C04.iter)."""
+    from . import c04
+    c04.iter_rule(ctx)
